@@ -152,7 +152,7 @@ def main():
     if "--jobs" in argv:
         jobs = int(argv[argv.index("--jobs") + 1])
     args = [a for i, a in enumerate(argv) if not a.startswith("--") and (i == 0 or argv[i - 1] not in ("--tier", "--jobs"))]
-    root = args[0]
+    root = os.path.abspath(args[0])
     flt = args[1] if len(args) > 1 else ""
     props = claimed()
     seeds = [d for d in find_seeds(root) if not flt or flt in d]
